@@ -315,3 +315,7 @@ func init() {
 		return in.tc.tFalse
 	})
 }
+
+func init() {
+	regVerif("verifNative", func(fr *frame, a []value) value { return fr.in.tc.tFalse })
+}
